@@ -149,9 +149,11 @@ class World:
         if isinstance(obj, type) and issubclass(obj, enum.Enum):
             return PyClass(obj, path)
         if isinstance(obj, (int, str, bytes, float, bool)) or obj is None:
-            if path in getattr(ex.k, 'constants', ()) or isinstance(obj, (bytes,)) or path.split('.')[-1].isupper():
+            # a module attribute is a constant only when the contract says so (an upper-case name such as
+            # farm.ARCHIVE may well be reassigned at run time); otherwise it must be a declared global
+            if path in getattr(ex.k, 'constants', ()) or path in getattr(self, 'constants', ()):
                 return obj
-            return None
+            raise Unsupported('module attribute %s is neither a declared global nor a declared constant' % path)
         if isinstance(obj, type):
             return PyClass(obj, path)
         if isinstance(obj, types.ModuleType):
@@ -492,6 +494,9 @@ class World:
                 recv = ex.unwrap(recv, line)
             if isinstance(recv.ty, Ref):
                 cls = recv.ty.cls
+                own = getattr(ex.k, 'methods', None)
+                if own and (cls, name) in own:
+                    return own[(cls, name)](ex, recv, args, kwargs, line)     # a lighter assumed model chosen by this contract
                 if (cls, name) in self.methods:
                     return self.methods[(cls, name)](ex, recv, args, kwargs, line)
                 cp = self.class_path.get(cls)
@@ -575,6 +580,10 @@ class World:
         if name == 'remove':
             x = ex.to_z3(args[0], E)
             ex.maybe_raise('ValueError' if ty.listlike else 'KeyError', z3.Not(t[x]), line)
+            if getattr(ty, 'dups_ok', False):
+                # a list with possible duplicates: one occurrence goes, whether another remains is not known
+                ex.write(recv, z3.Store(t, x, ex.fresh('still_there', BOOL)), line)
+                return None
             ex.write(recv, z3.Store(t, x, False), line)
             return None
         if name in ('update', 'extend', '__ior__'):
@@ -602,6 +611,10 @@ class World:
             return ex.newbox(t, ty)
         if name == 'count' and ty.listlike and not getattr(ty, 'dups_ok', False):
             return V(z3.If(t[ex.to_z3(args[0], E)], z3.IntVal(1), z3.IntVal(0)), INT)
+        if name == 'count' and ty.listlike:
+            n = ex.fresh('count', INT)
+            ex.assume(z3.And(n >= 0, (n > 0) == t[ex.to_z3(args[0], E)]))
+            return V(n, INT)
         if name == 'sort' and ty.listlike:
             return None     # order is abstracted
         if name == '__getitem__' and ty.listlike:
@@ -611,10 +624,15 @@ class World:
             ex.assume(t[x])
             return ex.wrap(x, E)
         if name == 'pop' and ty.listlike:
+            if not getattr(ty, 'dups_ok', False):
+                card(ex, t, ty)         # makes the cardinality facts of the current list available
             ex.maybe_raise('IndexError', t == ty.empty(), line)
             x = ex.fresh('pop', E)
             ex.assume(t[x])
-            ex.write(recv, z3.Store(t, x, False), line)
+            t2 = z3.Store(t, x, False)
+            if not getattr(ty, 'dups_ok', False):
+                ex.assume(card(ex, t2, ty) == card(ex, t, ty) - 1)      # a duplicate-free list loses exactly one member
+            ex.write(recv, t2, line)
             return ex.wrap(x, E)
         raise Unsupported('set method %s (line %d)' % (name, line))
 
@@ -902,6 +920,24 @@ def b_len(ex, args, kwargs, e):
 
 
 _card = {}
+
+
+def card_fn(ty):
+    key = ty.name
+    if key not in _card:
+        _card[key] = z3.Function('card_' + ty.elem.name, ty.sort(), z3.IntSort())
+    return _card[key]
+
+
+def _sym_range(self, ex, n, e):
+    """range(n) for a symbolic n: the list 0..n-1 as (length, identity array)"""
+    nt = ex._num(n)
+    ty = ListOf(INT)
+    j = z3.Int(ex.path.fresh_name('rg_j'))
+    return ex.newbox(ty.mk(z3.If(nt < 0, z3.IntVal(0), nt), z3.Lambda([j], j)), ty)
+
+
+World.sym_range = _sym_range
 
 
 def card(ex, t, ty):
